@@ -57,6 +57,7 @@ def correspondence(ctx):
     cases = []
     for _ in range(ctx.n(150, 2500)):
         ops = gen_ops_stop(rng)
+        H.environment(rng)
         x, y = around(rng)
         stream = x + STOP + y
         outs = H.gen_outcomes(rng, len(stream))
@@ -73,6 +74,7 @@ def correspondence(ctx):
         ctx.count('server_listen_udp')
     for _ in range(ctx.n(150, 2500)):
         ops = gen_ops_stop(rng)
+        H.environment(rng)
         rs = []
         for _ in range(rng.randrange(0, 4)):
             rs.append(rng.choice([None, b'x', b'$nosuch%%%%%', b'$system_foo:1%%%%%', b'status?']))
@@ -93,6 +95,7 @@ def correspondence(ctx):
         ctx.count('server_sendhandler')
         if any(e[0] == 'stop' for e in tr):
             ctx.nontriv(('c07send', repr(first), repr(rs), repr(qs)))
+    H.IO_SEED[0], H.STOP_EXC[0] = 0, None
     ctx.sample(cases[0][:500])
     ctx.run_cases('c07_server', 'From DS Require Import Model.SrvHandler Corr.SrvCorr.', 'scase', 'ok',
                   cases, show='show', shard=ctx.n(150, 400))
@@ -150,6 +153,8 @@ def oracle(ctx):
 
     for _ in range(ctx.n(300, 6000)):
         ops = gen_ops_stop(rng)
+        stop_exc = rng.choice(sorted(H.EXC_TABLE)) if rng.random() < 0.12 else None
+        H.IO_SEED[0], H.STOP_EXC[0] = 0, stop_exc       # a failing Server.stop must be survived
         x, y = around(rng)
         stream = x + STOP + y
         outs = H.gen_outcomes(rng, len(stream))
@@ -161,13 +166,13 @@ def oracle(ctx):
                 fail('server_listen_stop', 'listening connection: $system_stop%%%%% in the stream is not '
                      'answered with the value of system_stop() followed by Server.stop',
                      handler='listen_tcp', stream=stream.hex(), segments=[len(s) for s in segs],
-                     outcomes=[list(o) for o in outs], ops={k: list(v) for k, v in ops.items()})
+                     outcomes=[list(o) for o in outs], ops={k: list(v) for k, v in ops.items()}, stop_exc=stop_exc)
         checked += 1
         tr, cm, died = H.run_listen_udp(outs + [('F',)], ops, [], stream)
         if died is not None or not contains_block(tr, blk):
             fail('server_listen_stop_udp', 'UDP datagram containing $system_stop%%%%% is not answered / '
                  'does not stop the server', handler='listen_udp', stream=stream.hex(),
-                 outcomes=[list(o) for o in outs + [('F',)]], ops={k: list(v) for k, v in ops.items()})
+                 outcomes=[list(o) for o in outs + [('F',)]], ops={k: list(v) for k, v in ops.items()}, stop_exc=stop_exc)
         # sending server: whole chunk (must work), split / embedded (known finding)
         pre = [rng.choice([None, b'x', b'$nosuch%%%%%']) for _ in range(rng.randrange(0, 3))]
         qs = [rng.choice([None, b'status']) for _ in range(rng.randrange(0, 5))]
@@ -177,7 +182,8 @@ def oracle(ctx):
             fail('server_send_stop', 'sending connection: a chunk $system_stop%%%%% is not answered with the '
                  'value of system_stop() followed by Server.stop', handler='send', chunks=[
                      None if c is None else c.hex() for c in pre + [STOP]],
-                 queue=[None if q is None else q.hex() for q in qs], ops={k: list(v) for k, v in ops.items()})
+                 queue=[None if q is None else q.hex() for q in qs], ops={k: list(v) for k, v in ops.items()},
+                 stop_exc=stop_exc)
         k = rng.randrange(1, len(STOP))
         variants = [[STOP[:k], STOP[k:]], [b'x' + STOP], [STOP + b'\n']]
         for chunks in variants:
@@ -188,7 +194,8 @@ def oracle(ctx):
                      'exactly `$...%%%%%`', handler='send',
                      chunks=[None if c is None else c.hex() for c in pre + chunks],
                      queue=[None if q is None else q.hex() for q in qs],
-                     ops={k: list(v) for k, v in ops.items()})
+                     ops={k: list(v) for k, v in ops.items()}, stop_exc=stop_exc)
+    H.IO_SEED[0], H.STOP_EXC[0] = 0, None
     # the real system_stop and the real Server.stop behind the handler
     for _ in range(ctx.n(40, 400)):
         x, y = around(rng)
@@ -220,6 +227,7 @@ def replay(ctx, obj):
         return died is not None or H.SHUTDOWN.encode() not in sent or not stop_me or any(n < 1 for n in shutdowns)
     ops = {k: tuple(v) for k, v in w['ops'].items()}
     blk = expected_block(ops)
+    H.IO_SEED[0], H.STOP_EXC[0] = 0, w.get('stop_exc')
     if h == 'send':
         chunks = [None if c is None else bytes.fromhex(c) for c in w['chunks']]
         qs = [None if q is None else bytes.fromhex(q) for q in w['queue']]
